@@ -1,5 +1,5 @@
 (* Proofs/BracesProofs.v — proofs about Expand/Braces.v (C16). *)
-From Verif Require Import Base.Str Expand.Braces.
+From Verif Require Import Base.Str Proofs.StrProofs Expand.Braces.
 Require Import ZifyN ZifyNat ZifyBool.
 Open Scope N_scope.
 
@@ -657,3 +657,117 @@ Proof.
   - rewrite E. intros [= <-]. auto.
   - intros [-> _]. exact E.
 Qed.
+
+(* ------------------------------------------------------------------ expansion vs Spec *)
+
+(* (i) words without '{' : nothing to expand, for the code and for bash *)
+Lemma gobble_lb_none : forall n t, (length t <= n)%nat -> forall level commas at0,
+  contains_byte LB t = false -> gobble LB level commas at0 t = None.
+Proof.
+  induction n as [|n IH]; intros t Hn level commas at0 H.
+  { destruct t; [reflexivity|simpl in Hn; lia]. }
+  destruct t as [|c rest]; [reflexivity|].
+  unfold contains_byte in H. cbn [index_byte] in H. simpl in Hn.
+  destruct (c =? LB) eqn:Ec; [discriminate|].
+  assert (Hr: contains_byte LB rest = false).
+  { unfold contains_byte. destruct (index_byte LB rest); [discriminate|reflexivity]. }
+  cbn [gobble]. destruct (c =? BS).
+  - destruct rest as [|d rest']; [reflexivity|].
+    assert (Hr': contains_byte LB rest' = false).
+    { unfold contains_byte in *. cbn [index_byte] in Hr. destruct (d =? LB); [discriminate|].
+      destruct (index_byte LB rest'); [discriminate|reflexivity]. }
+    rewrite (IH rest'); [reflexivity|simpl in Hn; lia|exact Hr'].
+  - rewrite Ec. cbn [andb]. cbv zeta. rewrite (IH rest); [reflexivity|lia|exact Hr].
+Qed.
+
+Theorem no_brace_word : forall w, contains_byte LB w = false ->
+  expand_word w = Ok [w] /\ spec w = Words [w].
+Proof.
+  intros w H. split.
+  - unfold expand_word, split_braces. rewrite H. reflexivity.
+  - unfold spec, spec_fuel. simpl bexp. rewrite (gobble_lb_none (length w) w); auto.
+Qed.
+
+(* (ii) exhaustive short words: a genuinely finite domain, decided inside the kernel *)
+Definition A11 : list N := [123; 125; 44; 46; 45; 92; 48; 49; 57; 97; 122].   (* { } , . - \ 0 1 9 a z *)
+Definition short_words : list str :=
+  all_words A11 1 ++ all_words A11 2 ++ all_words A11 3 ++ all_words A11 4 ++ all_words A11 5
+  ++ all_words [123; 125; 44; 46; 49; 97] 6       (* { } , . 1 a *)
+  ++ all_words [123; 125; 46; 49; 97] 7           (* { } . 1 a *)
+  ++ all_words [123; 125; 44; 97] 7.              (* { } , a *)
+Definition agrees (w : str) : bool := sres_eqb (to_sres (expand_word w)) (spec w).
+
+Lemma short_words_checked : forallb (fun w => agrees w || skipped_close w) short_words = true.
+Proof. vm_compute. reflexivity. Qed.
+
+Lemma strs_eqb_true : forall a b, strs_eqb a b = true -> a = b.
+Proof.
+  induction a as [|x a IH]; intros [|y b] H; simpl in H; try discriminate; [reflexivity|].
+  apply andb_prop in H. destruct H as [H1 H2]. apply str_eqb_true in H1. subst. f_equal. now apply IH.
+Qed.
+
+Lemma sres_eqb_true : forall a b, sres_eqb a b = true -> a = b.
+Proof. intros [|x] [|y] H; simpl in H; try discriminate; [reflexivity|]. f_equal. now apply strs_eqb_true. Qed.
+
+Theorem expand_matches_spec_short : forall w,
+  In w short_words -> skipped_close w = false -> to_sres (expand_word w) = spec w.
+Proof.
+  intros w Hin Hk. pose proof short_words_checked as H. rewrite forallb_forall in H.
+  specialize (H w Hin). rewrite Hk, orb_false_r in H. now apply sres_eqb_true.
+Qed.
+
+Lemma in_all_words : forall alpha n w, length w = n -> (forall c, In c w -> In c alpha) -> In w (all_words alpha n).
+Proof.
+  induction n as [|n IH]; intros w Hl Hc.
+  - destruct w; [now left|discriminate].
+  - destruct w as [|c w']; [discriminate|]. simpl. apply in_flat_map. exists w'. split.
+    + apply IH; [simpl in Hl; lia|]. intros d Hd. apply Hc. now right.
+    + apply (in_map (fun c0 => c0 :: w')). apply Hc. now left.
+Qed.
+
+(* the same, with the domain spelled out: every word of length 1..5 over { } , . - \ 0 1 9 a z *)
+Theorem expand_matches_spec_len5 : forall w,
+  (1 <= length w <= 5)%nat -> (forall c, In c w -> In c A11) ->
+  skipped_close w = false -> to_sres (expand_word w) = spec w.
+Proof.
+  intros w Hl Hc. apply expand_matches_spec_short.
+  assert (H: In w (all_words A11 (length w))) by (apply in_all_words; auto).
+  unfold short_words. revert H. generalize (all_words A11). intros aw H.
+  assert (G: forall (a1 a2 a3 a4 a5 rest : list str),
+             (In w a1 \/ In w a2 \/ In w a3 \/ In w a4 \/ In w a5) -> In w (a1 ++ a2 ++ a3 ++ a4 ++ a5 ++ rest)).
+  { intros. rewrite !in_app_iff. tauto. }
+  apply G. clear G. revert H.
+  destruct (length w) as [|[|[|[|[|[|n]]]]]] eqn:E; try lia; tauto.
+Qed.
+
+Theorem expand_matches_spec_refuted : exists w, to_sres (expand_word w) <> spec w.
+Proof. exists [123;97;125;98;44;99;125]. vm_compute. discriminate. Qed.
+
+Lemma ex_split : split_braces [97;123;98;44;99;125;100]
+  = (true, [PLit [97]; PBrace false [[PLit [98]]; [PLit [99]]]; PLit [100]]).
+Proof. vm_compute. reflexivity. Qed.
+Lemma ex_unfound : split_braces [97;123;98] = (false, [PLit [97;123;98]]).
+Proof. vm_compute. reflexivity. Qed.
+Lemma ex_expand : expand_word [97;123;98;44;99;125;100] = Ok [[97;98;100]; [97;99;100]]
+  /\ spec [97;123;98;44;99;125;100] = Words [[97;98;100]; [97;99;100]].
+Proof. split; vm_compute; reflexivity. Qed.
+Lemma ex_limit :
+  expand_word [123;49;46;46;49;54;51;56;53;125] = Err E_LIMIT /\ spec [123;49;46;46;49;54;51;56;53;125] = Many
+  /\ exists l, expand_word [123;49;46;46;49;54;51;56;52;125] = Ok l /\ length l = limit.
+Proof.
+  split; [vm_compute; reflexivity|]. split; [vm_compute; reflexivity|].
+  destruct (expand_word [123;49;46;46;49;54;51;56;52;125]) as [l| |] eqn:E.
+  - exists l. split; [reflexivity|].
+    assert (H: match expand_word [123;49;46;46;49;54;51;56;52;125] with Ok l => Nat.eqb (length l) limit | _ => false end = true)
+      by (vm_compute; reflexivity).
+    rewrite E in H. now apply Nat.eqb_eq.
+  - exfalso. assert (H: match expand_word [123;49;46;46;49;54;51;56;52;125] with Ok l => true | _ => false end = true)
+      by (vm_compute; reflexivity). rewrite E in H. discriminate.
+  - exfalso. assert (H: match expand_word [123;49;46;46;49;54;51;56;52;125] with Ok l => true | _ => false end = true)
+      by (vm_compute; reflexivity). rewrite E in H. discriminate.
+Qed.
+Lemma ex_scope : skipped_close [123;97;44;122;125] = false /\ to_sres (expand_word [123;97;44;122;125]) = Words [[97]; [122]].
+Proof. split; vm_compute; reflexivity. Qed.
+Lemma ex_overflow :
+  exists a b, expand_word [123;57;50;50;51;51;55;50;48;51;54;56;53;52;55;55;53;56;48;54;46;46;57;50;50;51;51;55;50;48;51;54;56;53;52;55;55;53;56;48;55;125] = Ok [a; b].
+Proof. eexists. eexists. vm_compute. reflexivity. Qed.
